@@ -8,14 +8,23 @@ def main():
     for m in sorted(glob.glob(os.path.join(V, 'seeded', '*', 'meta.json'))):
         d = json.load(open(m))
         sid = os.path.basename(os.path.dirname(m))
-        own = d.get('checks_run', {}).get(d['property'], {})
+        owner = d.get('decided_by', d['property'])
+        own = d.get('checks_run', {}).get(owner, {})
         keys = ', '.join('`%s`' % k for k in own.get('keys', [])[:2]) or '-'
-        caught = 'yes' if d['property'] in d.get('caught_by', []) else 'NO'
-        others = [c for c in d.get('caught_by', []) if c != d['property']]
+        caught = ('yes' if owner in d.get('caught_by', []) else 'NO') + ('' if owner == d['property'] else ' (by %s: shows under concurrency only)' % owner)
+        others = [c for c in d.get('caught_by', []) if c != owner]
         conf = 'yes' if d.get('confirmation', {}).get('confirmed') else 'no'
-        rows.append('| %s | %s | %s | %s | %s%s | %s |' % (sid, d['property'], d['needs_to_manifest'].replace('|', '/'), conf, caught,
-                                                          (' (+' + ','.join(others) + ')') if others else '', keys))
-    tab = ['| id | property | what it needs in order to manifest | confirmed | caught by owning quick check | first keys reported |', '|---|---|---|---|---|---|'] + rows
+        cross = '?'
+        cp = os.path.join(os.path.dirname(m), 'cross.json')
+        if os.path.exists(cp):          # all quick checks against the change in a scratch worktree (bin/xv-seeded cross)
+            cj = json.load(open(cp))
+            oth = [c for c in cj['caught_by'] if c != owner]
+            cross = (', '.join(oth) or 'none') + (' (inconclusive: %s)' % ', '.join(cj['inconclusive']) if cj.get('inconclusive') else '')
+            if owner not in cj['caught_by']:
+                cross += ' [owner missed in this run]'
+        rows.append('| %s | %s | %s | %s | %s%s | %s | %s |' % (sid, d['property'], d['needs_to_manifest'].replace('|', '/'), conf, caught,
+                                                               (' (+' + ','.join(others) + ')') if others else '', keys, cross))
+    tab = ['| id | property | what it needs in order to manifest | confirmed | caught by owning quick check | first keys reported | other quick checks that report it |', '|---|---|---|---|---|---|---|'] + rows
     p = os.path.join(V, 'DESIGN.md')
     s = open(p).read()
     block = '<!-- SEEDTABLE -->\n' + '\n'.join(tab) + '\n<!-- /SEEDTABLE -->'
